@@ -72,7 +72,7 @@ func C04(run *hx.Run) {
 				run.Inconclusive("reference query failed: " + err.Error())
 				continue
 			}
-			if _, err, _ := collectSelect(db, t.Name, []string{"rowid"}); err != nil {
+			if _, err, _ := collectSelect(db, t.Name, []string{t.RowidName()}); err != nil {
 				run.Count("tables_rejected_by_sqlittle", 1)
 				continue
 			}
@@ -197,7 +197,7 @@ func C04(run *hx.Run) {
 				sample = append(sample, []hx.Value{id})
 				sampleIDs = append(sampleIDs, id)
 			}
-			res, err := w.o.QueryMany(d.Path, fmt.Sprintf("SELECT %s FROM %s WHERE rowid = ?", selectList(cols), hx.QuoteIdent(t.Name)), sample)
+			res, err := w.o.QueryMany(d.Path, fmt.Sprintf("SELECT %s FROM %s WHERE %s = ?", selectList(cols), hx.QuoteIdent(t.Name), t.RowidName()), sample)
 			if err != nil {
 				run.Inconclusive("reference rowid query failed: " + err.Error())
 				continue
